@@ -425,4 +425,4 @@ def check_case(case):
     return r
 
 
-PARTS = [Part("kernel_sums", check_case, {"quick": 3000, "thorough": 50000}, strategy=st_case)]
+PARTS = [Part("kernel_sums", check_case, {"quick": 3000, "thorough": 200000}, strategy=st_case)]
